@@ -15,6 +15,7 @@ from pandas.core.algorithms import factorize_array
 from ..util import (
     ArrayType1D,
     ArrayType2D,
+    _cast_timestamps_to_ints,
     _convert_timestamp_to_tz_unaware,
     _val_to_numpy,
     argsort_index_numeric_only,
@@ -902,7 +903,11 @@ class GroupBy:
 
         for i in range(n_values):
             slice_ = slice(i * len(group_keys), (i + 1) * len(group_keys))
-            results_one_value = results[slice_]
+            # temporal results are merged as int64 (the kernels' null tests and
+            # additions are not defined for datetime64 / timedelta64 scalars)
+            results_one_value, orig_types = zip(
+                *map(_cast_timestamps_to_ints, results[slice_])
+            )
             combined = numba_funcs._build_target_for_groupby(
                 results_one_value[0].dtype,
                 func_name,
@@ -925,6 +930,8 @@ class GroupBy:
                 # initial value is (dtypes without a null sentinel: bool, unsigned, small ints)
                 combined[pointer] = np.where(block_count > 0, merged, combined[pointer])
                 count[pointer] += block_count
+            if orig_types[0].kind in "mM" and combined.dtype.kind == "i":
+                combined = combined.view(orig_types[0])
             individual_results.append((combined, count))
 
         return individual_results
